@@ -4,6 +4,7 @@ import HT.Model.Canary
 import HT.Model.Knock
 import HT.Model.RotFile
 import HT.Model.ServerDrv
+import HT.Model.Limiter
 /-!
 Line-protocol driver: one case per input line, `<model> <args…>`; one output line
 per case.  Core Lean only (so it links as an executable).
@@ -21,6 +22,8 @@ def dispatch (line : String) : String :=
   | "rot" :: args => Rot.driver args
   | "srv" :: args => Srv.srvDriver args
   | "bus" :: args => Srv.busDriver args
+  | "lim" :: args => Lim.driver args
+  | "bucket" :: args => Lim.bucketDriver args
   | _ => "bad-model"
 
 partial def loop (h : IO.FS.Stream) (out : IO.FS.Stream) : IO Unit := do
